@@ -1,5 +1,6 @@
 import AiutiVerif.Core.Wire
 import AiutiVerif.Split.Drive
+import AiutiVerif.Parse.Drive
 /-!
 Model driver: reads one case per line on stdin (`<component> key=value …`), prints the
 model's answer on one line.  Imports `Model`/`Drive` files only (never a proof file).
@@ -12,6 +13,7 @@ def answer (line : String) : String :=
   | comp :: _ =>
     let fs := Wire.fields line
     if comp == "split" then Split.drive fs
+    else if comp == "parse" then Parse.drive fs
     else if comp == "ping" then "pong"
     else "bad-component"
   | [] => "bad-component"
